@@ -220,7 +220,7 @@ func genC05(rt *rapid.T) c05Case {
 		}
 	}
 	c.Cfg = cfg
-	c.Steps = GenSteps(rt, cfg, GenOpts{MaxSteps: 90})
+	c.Steps = GenSchedule(rt, cfg, GenOpts{MaxSteps: 90})
 	return c
 }
 
